@@ -109,6 +109,11 @@ def r04_1(ctx):
                         elif w.kwargs.get("prefix") or w.kwargs.get("suffix"):
                             bad = "ACK/NAK written with a non-default prefix/suffix"
                     if not bad:
+                        reads = {k for k in p.store["self"] if isinstance(k, str)} - {"_rx_seq", "_ezsp_protocol"}
+                        if reads:
+                            bad = (f"the receiver's decision reads link state other than the expected number: {sorted(reads)} (the per-frame table is then "
+                                   "not the whole behaviour)")
+                    if not bad:
                         for e in p.events:
                             if e.kind == "await" or any(s in e.what for s in ("call_later", "call_soon", "create_task", "ensure_future", "sleep")):
                                 bad = f"answer is not written directly: {e.brief()}"
@@ -320,7 +325,7 @@ def r05_send_skeleton(ctx):
                 break
             fr = w.args[0] if w.args else None
             rep = [e for e in p.events if e.kind == "call" and e.what.endswith(".replace") and e.extra == fr]
-            if not rep or not (isinstance(fr, Sym) and fr.tag.startswith("frame.replace#")):
+            if not rep or not isinstance(fr, Sym):
                 bad = f"R05.2 write #{k} sends {fr!r}, not the caller's frame with replaced header fields"
                 break
             kw = rep[0].kwargs
